@@ -67,7 +67,7 @@ def menu_entry(k):
         m.update(n_prop_steps=r.choice([1, 2, 3]), n_blocks=r.choice([1, 2, 3]), n_ene_blocks=r.choice([1, 2]))
     if kind == "driver":
         m["R"] = r.choice([1, 2, 3])
-    return m
+    return lab.corner_override(m, k, 5, empty_ok=False, rhf_unrestricted_ok=False)  # the property quantifies over electron counts with both spins present
 
 
 def gen_cfg(seed, index, tier):
@@ -79,6 +79,7 @@ def gen_cfg(seed, index, tier):
     m["mix"] = rng.choice([0.0, 0.1, 0.3])
     m["spin_dep"] = rng.random() < 0.6
     m["rdm1_kind"] = rng.choice(["own", "arbitrary"])
+    m["rdm1_complex"] = m["rdm1_kind"] == "arbitrary" and random.Random(seed + 31).random() < 0.5
     m["h1_antisym"] = rng.choice([0.0, 0.0, 0.0, 0.05])
     m["reuse_ham_data"] = rng.random() < 0.3
     # nearly linearly dependent columns in a user-supplied start walker (condition number 1e4-1e6)
@@ -126,7 +127,12 @@ def build(cfg, dt=None):
     if cfg["rdm1_kind"] == "arbitrary":
         r0 = np.asarray(s.wave_data["rdm1"])
         s.wave_data = dict(s.wave_data)
-        s.wave_data["rdm1"] = jnp.array(r0 + np.array([lab.rand_sym(rs, cfg["norb"], 0.3), lab.rand_sym(rs, cfg["norb"], 0.3)]))
+        r1 = r0 + np.array([lab.rand_sym(rs, cfg["norb"], 0.3), lab.rand_sym(rs, cfg["norb"], 0.3)])
+        if cfg.get("rdm1_complex"):
+            # Hermitian with an imaginary (antisymmetric) part, as the density matrix of complex orbitals is
+            k_ = rs.normal(size=(2, cfg["norb"], cfg["norb"])) * 0.3
+            r1 = r1 + 1j * (k_ - np.transpose(k_, (0, 2, 1)))
+        s.wave_data["rdm1"] = jnp.array(r1)
     s.ham_data = lab.build_intermediates(s, s.plain, reuse=cfg.get("reuse_ham_data", False))
     return s, rs
 
@@ -203,7 +209,7 @@ def compare_free(ctx, cfg, m, tr, opname, walkers_up, walkers_dn, norms, overlap
         # determinants of its sub-blocks then carry a relative round-off of cond x eps in
         # both the code and the model, so the tolerance follows the conditioning and a
         # walker beyond cond 1e5 is no longer refined (counted)
-        kappa = float(np.linalg.cond(Mu)) * float(np.linalg.cond(Md))
+        kappa = lab.cond(Mu) * lab.cond(Md)
         if not np.isfinite(kappa) or kappa > 1e7:
             tr.ok[i] = False
             stats["dropped_ill_conditioned"] = stats.get("dropped_ill_conditioned", 0) + 1
